@@ -109,6 +109,85 @@ func RangeSlice(n int, first bool) Iter[int] {
 	return nil
 }
 
+// MapDeleteAhead ranges over a map of n entries; the first iteration deletes all entries but a handful, so the
+// iterator has to pass over ~n removed entries INSIDE one advance (no loop body runs for them).
+func MapDeleteAhead(n int, first bool) Iter[int] {
+	m := make(map[int]int, n)
+	for i := 0; i < n; i++ {
+		m[i] = i
+	}
+	visits := 0
+	for k := range m {
+		mon.At(visits)
+		if visits == 0 {
+			for j := 0; j < n; j++ {
+				if j != k && j%(n/4+1) != 0 {
+					delete(m, j)
+				}
+			}
+		}
+		visits++
+		if first || visits > 1 {
+			Yield(k)
+		}
+	}
+	Yield(-1)
+	return nil
+}
+
+// MapClearAhead: the whole map is cleared during the first iteration.
+func MapClearAhead(n int, first bool) Iter[int] {
+	m := make(map[int]int, n)
+	for i := 0; i < n; i++ {
+		m[i] = i
+	}
+	visits := 0
+	for range m {
+		mon.At(visits)
+		visits++
+		clear(m)
+		if first {
+			Yield(visits)
+		}
+	}
+	Yield(-1)
+	return nil
+}
+
+// ChanManySkipped ranges over a channel of n values of which only the last is yielded.
+func ChanManySkipped(n int, first bool) Iter[int] {
+	ch := make(chan int, 64)
+	go func() {
+		for i := 0; i < n; i++ {
+			ch <- i
+		}
+		close(ch)
+	}()
+	for v := range ch {
+		mon.At(v)
+		if v == n-1 || (first && v == 0) {
+			Yield(v)
+		}
+	}
+	return nil
+}
+
+// StringLong ranges over a string of n multi-byte runes.
+func StringLong(n int, first bool) Iter[int] {
+	bs := make([]byte, 0, 2*n)
+	for i := 0; i < n; i++ {
+		bs = append(bs, 0xc3, 0xa9)
+	}
+	s := string(bs)
+	for i := range s {
+		mon.At(i / 2)
+		if i/2 == n-1 || (first && i == 0) {
+			Yield(i)
+		}
+	}
+	return nil
+}
+
 func Switch(n int, first bool) Iter[int] {
 	for i := 0; i < n; i++ {
 		mon.At(i)
